@@ -5,6 +5,12 @@ Import ListNotations.
 Open Scope Z_scope.
 
 (* ------------------------------------------------------------------ lists and lengths *)
+(* lia (8.16) does not digest [@length Z l]; abstract the lengths first *)
+Ltac glen := repeat match goal with
+  | |- context [@length ?A ?l] => let k := fresh "k" in set (k := @length A l) in *; clearbody k
+  | H : context [@length ?A ?l] |- _ => let k := fresh "k" in set (k := @length A l) in *; clearbody k
+  end.
+Ltac llia := glen; lia.
 Lemma len_nil : len [] = 0.
 Proof. reflexivity. Qed.
 
@@ -71,7 +77,7 @@ Proof.
 Qed.
 
 Lemma len_drop_any : forall n l, len (drop n l) = len l - Z.max 0 (Z.min n (len l)).
-Proof. intros. unfold drop, len. rewrite skipn_length. lia. Qed.
+Proof. intros. unfold drop, len. rewrite skipn_length. llia. Qed.
 
 Lemma split_at : forall n l, 0 <= n <= len l ->
   exists a b, l = a ++ b /\ len a = n.
